@@ -7176,6 +7176,9 @@ pub(crate) fn eval(env: &mut Env, session: &Session) -> Result<Value, EvalError>
                 }
             }
 
+            #[cfg(wilfred_garden_verif)]
+            crate::verif_sim::on_eval_step_started(env, session, &expr_state, &outer_expr);
+
             if session.trace_exprs {
                 println!("{:?}:\n  {:?}", expr_state, outer_expr.expr_,);
                 println!(
